@@ -59,10 +59,15 @@ CATEGORY_LABEL = {
     "animal": ("unknown", "unknown"),
     "movable_object.barrier": ("unknown", "unknown"),
     "unregistered.thing": ("unknown", "unknown"),
+    # outside the table although a part of the name is a registered name
+    "rental.bicycle": ("unknown", "unknown"),
+    "human.pedestrian.adult": ("unknown", "unknown"),
+    "object.car": ("unknown", "unknown"),
+    "minibus": ("unknown", "unknown"),
     "Vehicle.Car": ("car", "car"),
     "false_positive": ("false_positive", "false_positive"),
 }
-REGISTERED_OR_CASE = {"unregistered.thing"}
+REGISTERED_OR_CASE = {"unregistered.thing", "rental.bicycle", "human.pedestrian.adult", "object.car", "minibus"}
 CURRENT: Dict[str, Any] = {"spec": None}
 
 
@@ -228,7 +233,7 @@ def gen_dataset(r, task: str) -> Tuple[D.SceneSpec, Dict[str, Any]]:
         extra.append((ch, mod, (r.uniform(-2, 2), r.uniform(-1, 1), r.uniform(0, 2)), rand_quat(r, False)))
     raw = r.random() < 0.3
     spec = D.SceneSpec(samples=samples, lidar_channel=r.choice(["LIDAR_TOP", "LIDAR_CONCAT"]), extra_sensors=extra, vis_style=vis_style, categories=sorted(set(cats)) if r.random() < 0.5 else None, raw_files=raw, record_stamp_offset_us=r.choice([0, 0, 37_000, 1]), sensor_ego_offset=(r.uniform(-0.6, 0.6), r.uniform(-0.3, 0.3), 0.0) if (extra and r.random() < 0.5) else None)
-    info = dict(n_samples=n, n_inst=n_inst, vis_style=vis_style, lidar=spec.lidar_channel, n_sensors=1 + len(extra), disappearing=disappearing, unregistered=any(a.category == "unregistered.thing" for s in samples for a in s.anns), far=far)
+    info = dict(n_samples=n, n_inst=n_inst, vis_style=vis_style, lidar=spec.lidar_channel, n_sensors=1 + len(extra), disappearing=disappearing, unregistered=any(a.category in REGISTERED_OR_CASE for s in samples for a in s.anns), far=far)
     return spec, info
 
 
